@@ -9,6 +9,7 @@ import (
 
 	"pvh/internal/core"
 	"pvh/internal/decoder"
+	"pvh/internal/keyeng"
 )
 
 func init() {
@@ -35,7 +36,7 @@ func init() {
 			return 64
 		},
 		Run:     runC15,
-		Require: []string{"compactions_effective", "segments_removed_checked", "restarts", "compacted_everything", "backups", "fd_checks", "mapping_checks", "meta_files_existed_before_compaction", "fs_mem", "fs_crash", "fs_os", "fs_osmmap"},
+		Require: []string{"compactions_effective", "segments_removed_checked", "restarts", "compacted_everything", "backups", "fd_checks", "mapping_checks", "churn_runs", "meta_files_existed_before_compaction", "fs_mem", "fs_crash", "fs_os", "fs_osmmap"},
 	})
 }
 
@@ -191,7 +192,53 @@ func runC15(c *core.Ctx) {
 			}
 		}
 	}
+	// "churn" runs: besides the fixed live set, a constant number of keys that all fall into one bucket chain is kept
+	// alive while old ones are deleted and NEW ones are inserted every cycle; the index files must not grow with history.
+	churn := c.Case%5 == 2
+	var churnLive [][]byte
+	churnSeq := uint32(0)
+	lo16 := rng.Uint32() & 0xffff
+	newChurnKey := func() []byte {
+		churnSeq++
+		return keyeng.Key8(seed, churnSeq, lo16|rng.Uint32()<<16)
+	}
+	var idxSizes []int64
+	maxLive := 0
+	if churn {
+		c.Stat("churn_runs", 1)
+		for i := 0; i < 70; i++ {
+			k := newChurnKey()
+			churnLive = append(churnLive, k)
+			put(k, 8)
+		}
+	}
 	for cy := 0; cy < cycles && !violated; cy++ {
+		if churn {
+			for i := 0; i < 30 && !violated; i++ {
+				j := rng.Intn(len(churnLive))
+				del(churnLive[j])
+				k := newChurnKey()
+				churnLive[j] = k
+				put(k, 8)
+			}
+			files := env.List(env.Dir)
+			idxSizes = append(idxSizes, files["main.pix"]+files["overflow.pix"])
+			if len(ref) > maxLive {
+				maxLive = len(ref)
+			}
+			// Inserts take the first free slot of a chain, so a chain only gets another bucket when all its buckets are
+			// full: the overflow file can never need more than one bucket per 31 keys that were live at the same time,
+			// plus one partly filled bucket per chain (plus the header and a little slack).
+			if vi, err := db.VerifIndexDump(); err == nil {
+				bound := int64(512) * int64(1+(maxLive+30)/31+int(vi.NumBuckets)+2)
+				if files["overflow.pix"] > bound {
+					fail("index-growth", fmt.Sprintf("cycle %d: overflow.pix has %d bytes although at most %d keys were ever live at once and the index has %d buckets (bound %d): overflow buckets are allocated although earlier buckets of the chain have free slots", cy, files["overflow.pix"], maxLive, vi.NumBuckets, bound))
+				}
+			}
+		}
+		if len(ref) > maxLive {
+			maxLive = len(ref)
+		}
 		// steady overwrite/delete workload on the same live set
 		everything := cy == cycles/2 || (cy > 3 && rng.Intn(25) == 0)
 		if everything {
@@ -330,6 +377,22 @@ func runC15(c *core.Ctx) {
 			}
 			if i >= half && s > m2 {
 				m2 = s
+			}
+		}
+		if churn && len(idxSizes) > 4 {
+			h := len(idxSizes) / 2
+			var a, b int64
+			for i, v := range idxSizes {
+				if i < h && v > a {
+					a = v
+				}
+				if i >= h && v > b {
+					b = v
+				}
+			}
+			c.StatMax("max_index_bytes", b)
+			if b > 2*a+1024 {
+				fail("index-growth", fmt.Sprintf("the index files keep growing although the number of keys is constant (keys of one bucket chain are deleted and new ones inserted): max %d bytes in the first half of the cycles, %d in the second", a, b))
 			}
 		}
 		if m2 > 2*m1+int64(cfg.MaxSeg) {
